@@ -626,3 +626,68 @@ Definition flat_names_ok (m : S.module) (nm : names) (G : decls) (nsig ntmp nloo
   forallb (fun i => match PositiveMap.find (n_tmp nm i) (X.mod_tenv m) with Some (S.PBits _, []) => true | _ => false end) (seq 0 ntmp) &&
   forallb (fun i => match PositiveMap.find (n_loop nm i) (X.mod_tenv m) with Some (S.PBits 32, []) => true | _ => false end) (seq 0 nloop) &&
   nodup_pos (map (fun s => fst (n_sig nm s)) (seq 0 nsig) ++ map (n_tmp nm) (seq 0 ntmp) ++ map (n_loop nm) (seq 0 nloop)).
+
+(* ------------------------------------------------------------------ acceptor of TranslateSound.tr_comb_block_sound
+   plain designs: every signal is ONE scalar variable of the module (a Bits vector or a packed struct; no list of
+   signals), every field (s, p) of it is the member chain below that variable at the offset of the declaration table,
+   temporaries are declared scalars, all spellings are pairwise distinct. *)
+Definition sid (nm : names) (s : nat) : ident := fst (n_sig nm s).
+Definition tmp_decl (te : Z'.tenv) (nm : names) (i : nat) : option Z :=
+  match PositiveMap.find (n_tmp nm i) te with Some (S.PBits w, []) => Some w | _ => None end.
+
+Definition place_ok (te : Z'.tenv) (nm : names) (G : decls) (d : nat * list nat * finfo) : bool :=
+  let '(s, p, f) := d in
+  match snd (n_sig nm s), Z'.resolve te (PositiveMap.empty Z'.value) (tr_sig nm s p), lookup_sig G s [] with
+  | [], Some (Z'.mkref x [] [] o ty), Some f0 =>
+      Pos.eqb x (sid nm s) && (o =? flo f) && (S.pwidth ty =? fw f) && (0 <? fw f) && (fw f <? 1024) && (0 <=? flo f) &&
+      (flo f0 =? 0) && (flo f + fw f <=? fw f0) &&
+      match fstruct f with None => match ty with S.PBits w => w =? fw f | _ => false end | Some _ => true end
+  | _, _, _ => false
+  end.
+Definition roots (G : decls) : list nat :=
+  map (fun d => fst (fst d)) (filter (fun d => match snd (fst d) with [] => true | _ => false end) G).
+Definition plain_ok (te : Z'.tenv) (nm : names) (G : decls) (ntmp : nat) : bool :=
+  forallb (place_ok te nm G) G &&
+  nodup_pos (map (sid nm) (roots G)) && nodup_pos (map (n_tmp nm) (seq 0 ntmp)) &&
+  forallb (fun s => forallb (fun i => negb (Pos.eqb (sid nm s) (n_tmp nm i))) (seq 0 ntmp)) (roots G) &&
+  forallb (fun i => match tmp_decl te nm i with Some w => (0 <? w) && (w <? 1024) | None => false end) (seq 0 ntmp).
+
+Section CombOk.
+Variable te : Z'.tenv.
+Variable nm : names.
+Variable ntmp : nat.
+
+(* tmp = e : the declared width is the annotated one; the kind of value is statically known (a Bits value in an explicit
+   temporary, an int built from literals / closure ints / loop variables in an int-typed one); a re-assignment keeps
+   width and flags (the type checker's check S7, here required of the block) *)
+Definition tmp_assign_ok (E : tenv) (i : nat) (e : expr) : bool :=
+  Nat.ltb i ntmp &&
+  match tc impl E e, tmp_decl te nm i with
+  | Some r, Some w =>
+      (aw (fst r) =? w) && ((aex (fst r) && negb (mayint E e)) || (defint e && aint (fst r))) &&
+      match ttmp E i with
+      | Some (w0, ex0, mi0, _) => (w0 =? aw (fst r)) && eqb ex0 (aex (fst r)) && eqb mi0 (aint (fst r))
+      | None => true
+      end
+  | _, _ => false
+  end.
+Definition typed (E : tenv) (s : stmt) : bool := match tcs impl E s with Some _ => true | None => false end.
+
+(* statements of a combinational block covered by the block theorem: blocking assignments, if / elif / else; the block
+   type-checks; no for loop (TranslateSound.tr_for_sound_partial) *)
+Fixpoint cstmt_ok (E : tenv) (s : stmt) {struct s} : bool :=
+  match s with
+  | SAssign _ l e b =>
+      b && assign_ok te nm E l e true && typed E s && match l with LTmp i => tmp_assign_ok E i e | _ => true end
+  | SIf _ c t f =>
+      sv_ok te nm E None c && typed E s &&
+      (fix go (l : list stmt) (E : tenv) : bool :=
+         match l with [] => true | x :: r => cstmt_ok E x && go r (env_after E x) end) t E &&
+      (fix go (l : list stmt) (E : tenv) : bool :=
+         match l with [] => true | x :: r => cstmt_ok E x && go r (env_after E x) end) f (env_after_list E t)
+  | SFor _ _ _ _ _ => false
+  end.
+Fixpoint cstmts_ok (E : tenv) (l : list stmt) : bool :=
+  match l with [] => true | x :: r => cstmt_ok E x && cstmts_ok (env_after E x) r end.
+Definition comb_ok (G : decls) (b : list stmt) : bool := cstmts_ok (init_tenv G) b.
+End CombOk.
